@@ -320,7 +320,7 @@ def count_decay_clip(streams_out):
 
 
 def report_violations(chk, judged, quick, max_shrunk=3, max_reports=8, use_spec=True, judge_line=None,
-                      expected="the equations / documented behaviour give"):
+                      expected="the equations / documented behaviour give", protect=()):
     """One report per (algorithm, operation, failure class); the first few are shrunk."""
     groups = {}
     for j in judged:
@@ -332,7 +332,11 @@ def report_violations(chk, judged, quick, max_shrunk=3, max_reports=8, use_spec=
             break
         small, im, sp, at = hist, j["impl"], (j.get("spec", "") if use_spec else j.get("what", "")), len(hist) - 1
         if n < max_shrunk:
-            def still(c, op=op, cls=cls):
+            keep = [l for l in hist if l.split(" ")[0] in protect]
+
+            def still(c, op=op, cls=cls, keep=keep):
+                if [l for l in c if l.split(" ")[0] in protect] != keep:
+                    return False      # structural lines of the history must survive shrinking
                 f = ol.fails_on_impl(c, use_spec, judge_line)
                 return f is not None and classify(c[f[0]], f[1], f[2]) == (op, cls)
             if still(hist):
@@ -355,7 +359,7 @@ def run(chk):
                 "foreign, unknown), add (new, double, invalid, as Model, mid-training), reset_gradients}; every history is executed by the "
                 "real library (ASan/UBSan build), by the Lean model (generated rules + Model/Optimizer.lean) and by the Lean "
                 "specification (Spec/Optimizers.lean). SGD/MomentumSGD histories on dyadic data are compared exactly as rationals, the "
-                "others in float32 within rel 2^-18 (model) / 2^-11 (specification). Non-trivial = the call succeeded; distinct = "
+                "others in float32 within |a-b| <= 2^-18 max(|a|,|b|,1) (model) / 2^-11 max(|a|,|b|,1) (specification). Non-trivial = the call succeeded; distinct = "
                 "distinct operation lines.") % (30 if quick else 200)
     ol.obligations_with_gen(chk, MODS, tr.generate, tr.OUT)
     T = Table()
@@ -399,8 +403,9 @@ def run(chk):
     chk.extra_cov["of_those_clipping_triggered_on_the_decayed_norm"] = clipped
     chk.extra_cov["epoch_boundary_histories"] = len([h for h in hists if any(("u%d" % e) in l for l in h for e in EPOCH_BOUNDS)])
     chk.extra_cov["values_compared_exactly_as_rationals"] = R.model_cmp.exact_values
-    chk.extra_cov["max_relative_deviation_impl_vs_model_float32"] = R.model_cmp.max_dev
-    chk.extra_cov["max_relative_deviation_impl_vs_spec_float32"] = R.spec_cmp.max_dev
+    chk.extra_cov["float32_representable_values_that_differed_from_the_rational_model_within_tolerance"] = R.model_cmp.exact_misses
+    chk.extra_cov["max_deviation_impl_vs_model_float32_over_max_abs_1"] = R.model_cmp.max_dev
+    chk.extra_cov["max_deviation_impl_vs_spec_float32_over_max_abs_1"] = R.spec_cmp.max_dev
     report_violations(chk, judged, quick)
     # 2. model != implementation although the implementation meets the specification
     if not chk.violations:
@@ -417,12 +422,7 @@ def run(chk):
         if c.get("at_exit"):
             chk.report("optim:crash-at-exit:" + c["kind"], "the harness process fails at exit (%s)" % c["kind"],
                        {"family": "optim", "stderr": c.get("stderr", "")[-1500:]}, found_input=True)
-    # 3. broken obligations with no failing input
-    broken = chk.broken_obligations()
-    if broken and not chk.violations:
-        for name, why in broken.items():
-            chk.report("obligation:" + name, "theorem %s no longer checks: %s" % (name, why),
-                       {"theorem": name, "reason": why, "log": (chk.oblig or {}).get("log_tail", "")[-1500:]}, found_input=False)
+    ol.report_broken(chk)
     chk.trusted += [
         "modelled, not verified: Optimizer::update/add/reset_gradients/setters and the used part of Parameter are hand-modelled in Lean (Model/Optimizer.lean) and tied to the code by this correspondence run; update_parameter, configure_parameter, get/set_configs, the settings and their guards are translated from the sources on every run (translate/optimizers.py)",
         "not shown (measured by the correspondence only): float32 rounding of every update, and the evaluation of std::pow(beta, epoch) in double; theorems are over an ordered field / the reals",
